@@ -27,6 +27,8 @@ type propInfo struct {
 
 var props = map[string]*propInfo{}
 
+var selftestFile string
+
 func main() {
 	repo := flag.String("repo", "/repo", "repository root to analyse")
 	prop := flag.String("prop", "", "property id (C01..C20) or 'all'")
@@ -39,7 +41,9 @@ func main() {
 	arch := flag.String("arch", "", "GOARCH to load for (default host)")
 	list := flag.Bool("list", false, "list rules")
 	verbose := flag.Bool("v", false, "print every obligation")
+	selftest := flag.String("selftest", "", "JSON file with mutant self-test results to embed in the evidence (thorough tier)")
 	flag.Parse()
+	selftestFile = *selftest
 
 	if os.Getenv("SPECVET_DUMP_GRAMMAR") != "" {
 		g, err := parseYacc(filepath.Join(*repo, "internal/lang/parser/grammar.y"))
@@ -304,6 +308,14 @@ func writeEvidence(c *Ctx, dir, p, tier string, seed int, obs []*Ob, perRule map
 		"assumptions": append([]string{"go/packages, go/types and go/ssa (x/tools v0.50.0) represent the program the Go compiler builds", "linux/amd64 build configuration unless goarch says otherwise; the module has no build tags"}, pi.Trusted...),
 		"wall_s":      wall,
 		"violations":  nViol,
+	}
+	if selftestFile != "" {
+		if sb, err := os.ReadFile(selftestFile); err == nil {
+			var st any
+			if json.Unmarshal(sb, &st) == nil {
+				cov["mutant_selftest"] = st
+			}
+		}
 	}
 	b, _ := json.MarshalIndent(ev, "", " ")
 	if err := os.WriteFile(filepath.Join(dir, p+".json"), b, 0o644); err != nil {
